@@ -14,5 +14,6 @@ let () =
   | "upd" -> D_upd.run ()
   | "yaml" -> D_yaml.run ()
   | "render" -> D_render.run ()
+  | "envrun" -> D_env.run ()
   | "validate" -> D_exec.run_validate ()
   | x -> prerr_endline ("unknown " ^ x); exit 2
